@@ -3423,6 +3423,23 @@ impl SctpInner {
         // Original NOTE: tx_lock is no longer held for the entire send operation!
 
         let is_dcep = ppid == DATA_CHANNEL_PPID_DCEP;
+        if is_dcep {
+            // DCEP messages are also sent by the association's own task: the ACK in
+            // handle_dcep, the OPEN in handle_cookie_ack / handle_cookie_echo. That task
+            // is the only one that processes SACKs, so it must not wait for buffer
+            // credit, nor for the send lock of a channel whose application send is
+            // parked waiting for that credit - nobody else can release either. DCEP is
+            // unordered and takes no SSN, so it needs neither.
+            if *self.state.lock() == SctpState::Closed {
+                return Err(anyhow::anyhow!("sctp association closed"));
+            }
+            let max_payload_size = dc_opt
+                .as_ref()
+                .map_or(DEFAULT_MAX_PAYLOAD_SIZE, |dc| dc.max_payload_size)
+                .min(DEFAULT_MAX_PAYLOAD_SIZE);
+            self.enqueue_message(channel_id, ppid, data, 0x04, 0, max_payload_size, None, None);
+            return Ok(());
+        }
         let mut ordered = !is_dcep;
         let mut max_payload_size = DEFAULT_MAX_PAYLOAD_SIZE;
         let mut max_retransmits: Option<u16> = None;
@@ -3463,7 +3480,6 @@ impl SctpInner {
             // Let's assume OK to process.
         }
 
-        let total_len = data.len();
         let flags_base = if !ordered { 0x04 } else { 0x00 };
 
         loop {
@@ -3491,6 +3507,33 @@ impl SctpInner {
             _ => 0,
         };
 
+        self.enqueue_message(
+            channel_id,
+            ppid,
+            data,
+            flags_base,
+            ssn,
+            max_payload_size,
+            max_retransmits,
+            expiry,
+        );
+        Ok(())
+    }
+
+    /// Fragments one message and appends it to the outbound queue. Never waits.
+    #[allow(clippy::too_many_arguments)]
+    fn enqueue_message(
+        &self,
+        channel_id: u16,
+        ppid: u32,
+        data: &[u8],
+        flags_base: u8,
+        ssn: u16,
+        max_payload_size: usize,
+        max_retransmits: Option<u16>,
+        expiry: Option<Instant>,
+    ) {
+        let total_len = data.len();
         self.queued_bytes.fetch_add(total_len, Ordering::Relaxed);
 
         if total_len == 0 {
@@ -3506,7 +3549,7 @@ impl SctpInner {
             };
             self.outbound_queue.lock().push_back(chunk);
             self.timer_notify.notify_one();
-            return Ok(());
+            return;
         }
 
         // Create a single Bytes from the input and use .slice() to avoid per-fragment copies
@@ -3544,8 +3587,6 @@ impl SctpInner {
         // Trigger run_loop to transmit
         drop(queue);
         self.timer_notify.notify_one();
-
-        Ok(())
     }
 
     async fn transmit(&self) -> Result<()> {
